@@ -36,14 +36,14 @@ type curCase struct {
 
 // Ctx is handed to every property check (one per worker process).
 type Ctx struct {
-	Prop        string
-	Tier        string
-	Seed        int64
-	Shard       int
-	NShards     int
-	Skip        map[int64]bool // granular case indices to skip (culprits of an earlier hang / heap blow-up of this shard)
-	SkipEntry   map[string]bool // entry points whose cases are skipped wholesale (they hung or crashed the worker repeatedly)
-	Replay      bool
+	Prop      string
+	Tier      string
+	Seed      int64
+	Shard     int
+	NShards   int
+	Skip      map[int64]bool  // granular case indices to skip (culprits of an earlier hang / heap blow-up of this shard)
+	SkipEntry map[string]bool // entry points whose cases are skipped wholesale (they hung or crashed the worker repeatedly)
+	Replay    bool
 
 	Counters map[string]int64
 	Sets     map[string]map[string]struct{}
@@ -54,12 +54,12 @@ type Ctx struct {
 
 	distinct    map[uint64]struct{}
 	distinctCap int
-	caseIdx  int64
-	trace    *os.File
-	progress atomic.Int64
-	cur      atomic.Pointer[curCase]
-	start    time.Time
-	Deadline time.Time
+	caseIdx     int64
+	trace       *os.File
+	progress    atomic.Int64
+	cur         atomic.Pointer[curCase]
+	start       time.Time
+	Deadline    time.Time
 }
 
 func NewCtx(prop, tier string, seed int64, shard, nshards int) *Ctx {
